@@ -646,7 +646,7 @@ pub fn f8_reject(rng: &mut Rng, name: &str) -> (Def, &'static str) {
     match rng.below(12) {
         0 => {
             // empty-matching pattern
-            let t = rng.pick_str(&["a*", "(a|)", "x?", "a{0,2}", "(?:)", "(a*)*", "b*|c", "(?-u:\\b)", "$", "a?b?", "(ab)*"]);
+            let t = rng.pick_str(&["a*", "(a|)", "x?", "a{0,2}", "(?:)", "(a*)*", "b*|c", "(?-u:\\b)", "$", "a?b?", "(ab)*", "(?:[^\\s\\S]|b)*", "a|[^\\s\\S]*", "a*[^\\s\\S]*", "[^\\s\\S]*", "[a&&b]?", "(?:[a&&b]|c)*"]);
             def.push(Pat::regex(t, 0));
             if rng.chance(1, 2) {
                 def.push(Pat::token("zz", 0));
